@@ -1000,11 +1000,34 @@ def check_world(pid, tier, seed):
                              "BitProducer splits, for plain and combined (and / or / xor / and-not) sets: real "
                              "hibitset types through the harness vs the extracted model (Bits/Hibit.v)")
 
+    # C12 under destructor faults: events still replay to the membership (implementation alone, unwind harness)
+    fault_ev = None
+    fault_bad = []
+    if pid == "C12":
+        from . import unwind_check
+        import unwind_gen
+        fes = unwind_check.fault_event_histories(tier, seed)
+        for kind, h, line in fes:
+            v = unwind_check.fault_event_violation(h, line)
+            if v:
+                fault_bad.append((v, h, line))
+        fault_ev = dict(histories=len(fes), with_an_armed_destructor_fault=sum(1 for k, _, _ in fes if k == "fault"),
+                        disagreements=len(fault_bad),
+                        what="tracked storages, destroying operations with a component destructor armed to panic at "
+                             "every position: the events read afterwards replay to the mask the storage shows")
+
     rc = 0
     for cls, r in known_hits.items():
         print("KNOWN-FINDING: property=%s %s" % (pid, known_cls[(pid, cls)]["text"]))
     replay = None
-    if mask_bad and not violations:
+    if fault_bad and not violations:
+        v, h, line = min(fault_bad, key=lambda t: len(t[1]))
+        replay = common.write_replay(pid, dict(property=pid, domain="unwind-events", history=unwind_gen.pretty(h),
+                                               encoded=unwind_gen.encode(h), transcript=line, what=v,
+                                               replay_cmd="./sv replay <this file>"))
+        print("VIOLATION property=%s replay=%s" % (pid, replay))
+        rc = 1
+    elif mask_bad and not violations:
         b = min(mask_bad, key=lambda r: len(r["case"]))
         replay = common.write_replay(pid, dict(property=pid, domain="hibit", case=b["case"],
                                                history=hibit_gen.pretty(b["case"]), impl=b["impl"], model=b["model"],
@@ -1062,13 +1085,13 @@ def check_world(pid, tier, seed):
                    "+ structured random + planted failing batches (+ long churn for C17), each executed on the real "
                    "World and on the extracted model") + "; non-trivial = " + p["nontrivial"]),
             generator=dict(gstats), op_histogram=dict(ophist), error_histogram=dict(errkinds),
-            mask_layer_tie=mask_tie,
+            mask_layer_tie=mask_tie, events_under_destructor_faults=fault_ev,
             samples=samples, exhaustive=False, search=search_note,
             known_findings=[known_cls[(pid, c)]["text"] for c in known_hits],
         ),
         assumptions=["generations < 2^31 and indices < 2^24 (histories here are far shorter)",
                      "handles passed to the world were returned by it (the harness never forges handles)"],
-        wall_s=round(time.time() - t0, 2), violations=len(violations) + len(mask_bad),
+        wall_s=round(time.time() - t0, 2), violations=len(violations) + len(mask_bad) + len(fault_bad),
     )
     common.write_evidence(pid, ev)
     common.cleanup_run_dir()
@@ -1151,6 +1174,19 @@ def replay(path):
     if obj.get("domain") == "unwind":
         from . import unwind_check
         return unwind_check.replay(obj, path)
+    if obj.get("domain") == "unwind-events":
+        from . import unwind_check
+        import unwind_gen
+        h = unwind_gen.decode(obj["encoded"])
+        line = unwind_check.run_harness(common.build_harness(False), [h])[0]
+        v = unwind_check.fault_event_violation(h, line)
+        print(json.dumps(dict(history=unwind_gen.pretty(h), transcript=line, violation=v), indent=1))
+        common.cleanup_run_dir()
+        if v:
+            print("VIOLATION property=%s replay=%s" % (pid, path))
+            return 1
+        print("no violation on this history")
+        return 0
     if obj.get("domain") == "hibit":
         from . import hibit_check
         r = hibit_check.run_cases([obj["case"]])[0]
